@@ -11,6 +11,7 @@ emitted by the unit-buffered NDJSON writer)."""
 from __future__ import annotations
 
 import json
+import os
 import struct
 
 from vlib import common, corpus, cxx, rt, values
@@ -208,6 +209,18 @@ def run(ctx):
         ctx.count("%s.%s" % (ep.name, case["class"].split(":")[0]))
         ok = refused(ctx, m, r, ep.name, "ndjson", "%s reader %s fed %s" % (ep.name, reader, case["class"]), dict(case, input_len=len(data), fmt=fmt))
         ctx.case((reader, fmt, case["class"], len(data), common.sha(data)[:8]))
+        if ep.name == "cpp-plain" and not case["class"].startswith("header:"):
+            # the same input opened through the reader's file-name constructor
+            fp = os.path.join(ctx.workdir, "byname", "%s_%s.%s" % (reader, common.sha(data)[:12], fmt))
+            os.makedirs(os.path.dirname(fp), exist_ok=True)
+            with open(fp, "wb") as f:
+                f.write(data)
+            r2 = ep.copy(reader, fmt, "ndjson", b"", in_file=fp)
+            ctx.ev()
+            ctx.count("%s.by-name.%s" % (ep.name, case["class"].split(":")[0]))
+            ok = refused(ctx, m, r2, ep.name + "-by-name", "ndjson", "%s reader %s (file-name constructor) fed %s" % (ep.name, reader, case["class"]),
+                         dict(case, input_len=len(data), fmt=fmt, by_name=True)) and ok
+            os.unlink(fp)
         return ok
 
     cpp_jobs = [j for j in jobs if not j[0].name.startswith("py")]
@@ -216,6 +229,28 @@ def run(ctx):
     for j in py_jobs:
         one(j)
     m.close()
+
+    # a protocol of an imported namespace that has the simple name of a protocol added to the top-level namespace since the previous version:
+    # nothing but the simple name relates them, the top-level reader must refuse the imported protocol's stream (as any version of itself, too)
+    def imported_same_name():
+        lib = Pkg("Common", [Proto("Frames", [("count", P("int32")), ("samples", S(P("int32")))])])
+        old = Pkg("Demo", [Proto("Other", [("x", P("int32"))])], [lib], [], "demo_v0")
+        new = Pkg("Demo", [Proto("Other", [("x", P("int32"))]), Proto("Frames", [("count", P("uint32")), ("samples", S(P("uint32")))])], [lib], [("v0", old)], "demo")
+        m3 = rt.prepare_model(ctx, "importedsamename", new, ["plain"], langs=("cpp",))
+        mlib = rt.prepare_model(ctx, "importedsamename_lib", lib, ["plain"], langs=("cpp",))
+        if m3 is None or mlib is None:
+            raise Inconclusive("imported-same-name model did not build")
+        cl = mlib.codec
+        vals = [-3, [-1, -2, 5]]
+        data = cl.encode_stream(lib.find("Frames"), mlib.schema("Frames"), vals)
+        ep = rt.CppEndpoint(m3, "plain")
+        r = ep.copy("Frames", "bin", "ndjson", data)
+        ctx.ev()
+        ctx.count("imported-same-name")
+        ctx.case(("imported-same-name",))
+        refused(ctx, m3, r, ep.name, "ndjson", "Demo.Frames reader (added since v0) fed a stream of the imported Common.Frames", {"class": "imported-same-name"})
+        m3.close(); mlib.close()
+    imported_same_name()
 
     # unrelated protocols of corpus models
     def corpus_pairs(key):
